@@ -1,6 +1,7 @@
 import Driver.C14Mon
 import OidcModel.Generated.RequestObject
 import OidcModel.Generated.AssertionEndpoints
+import OidcModel.Generated.AssertionHelpers
 open Kv Drv
 
 namespace Drv.C14
@@ -8,7 +9,10 @@ namespace Drv.C14
 def modelLine (l : Line) (now : Int) : String × Bool :=
   let registry := Drv.C02.parseRegistry l
   match str l "kind" with
-  | "reqobj" =>
+  | "reqobj" | "roendpoint" =>
+    -- at the authorization endpoint (roendpoint) the object is looked at only when the provider has request objects switched on;
+    -- otherwise a request that carries one is refused (Provider router: request_not_supported after validation; legacy: at once)
+    if str l "kind" == "roendpoint" && !bool l "ro.supported" then ("err", str l "obs" == "err") else
     let store : Store := { clients := (registry.map (·.1)).eraseDups.map fun id => { id := id, keys := (registry.filter (·.1 == id)).map (·.2) } }
     match Gen.ParseRequestObject now (plainReq l) store (str l "v.iss") with
     | .error _ => ("err", str l "obs" == "err")
@@ -17,9 +21,9 @@ def modelLine (l : Line) (now : Int) : String × Bool :=
     let sc : Option (Claims → Go.R Unit) := if has l "v.subjcheck" then some (fun _ => .ok ()) else none
     let v : JWTProfileVerifier := { Issuer := str l "v.iss", MaxAgeIAT := int l "v.maxiat", Offset := int l "v.off", Storage := registry, CheckSubject := sc }
     match Gen.VerifyJWTAssertion now (parseToken l) v with
-    | .ok c => ("ok", str l "obs" == "ok" && (str l "kind" == "helper" ||
+    | .ok c => ("ok", str l "obs" == "ok" && (str l "kind" == "helper" || (str l "via" == "clientauth" && c.iss == str l "o.id") ||
         (c.iss == str l "o.iss" && c.sub == str l "o.sub" && c.aud == list l "o.aud" && c.exp == int l "o.exp" && c.iat == int l "o.iat")))
-    | .error e => (showR (.error e : Go.R Unit), str l "obs" == "err" && (!e.startsWith "Err" || str l "o.err" == e))
+    | .error e => (showR (.error e : Go.R Unit), str l "obs" == "err" && (!e.startsWith "Err" || str l "via" == "clientauth" || str l "o.err" == e))
 
 /-! ### endpoint lines: the regenerated consumers of assertions (`GenC14`), with the verifier built for the issuer the request
     is addressed to -/
@@ -92,11 +96,58 @@ def stepEndpoint (l : Line) : String :=
   let stable := m0 == m1
   s!"case={str l "case"} class={lineClass l} model={if stable then m0 else "unstable"} observed={obsString l} monitor={showMon (monitorLine l)} agree={if !stable || a0 then 1 else 0}"
 
+/-! ### mint lines: the regenerated client helpers (`GenC14`, Generated/AssertionHelpers.lean) against what the real helpers returned -/
+
+def mintKey (l : Line) : HlpKeyBytes :=
+  let k : HlpPrivateKey := { keyNo := nat l "h.no", kty := parseKty (str l "h.kty"), curveBits := if str l "h.form" == "pkcs8-ec384" then 384 else 256 }
+  match str l "h.form" with
+  | "pkcs1-rsa" => { block := some {}, pkcs1 := .ok k }
+  | "pkcs8-rsa" => { block := some {}, pkcs8 := .ok (.rsa k) }
+  | "pkcs8-ec256" | "pkcs8-ec384" => { block := some {}, pkcs8 := .ok (.ecdsa k) }
+  | "pkcs8-ed25519" => { block := some {}, pkcs8 := .ok (.ed25519 k) }
+  | "pkcs8-other" => { block := some {}, pkcs8 := .ok .other }
+  | "sec1-ec" => { block := some {} }
+  | _ => {}
+
+def mintErrClass (e : String) : String :=
+  if e == "ErrPEMDecode" then "pem" else if e == "ErrUnsupportedFormat" then "format" else if e == "ErrUnsupportedPrivateKey" then "keytype"
+  else if e.startsWith "go-jose: expected" then "sign" else "signer"
+
+/-- what matters of a minted token: header, signer, claims -/
+def mintSummary (t : Token) : String :=
+  match t.jws, t.middle.bind (·.claims) with
+  | some j, some c =>
+    match j.Signatures with
+    | [s] => s!"ok:{t.segs}:{s.Header.Algorithm}:{s.Header.KeyID}:{s.signer}:{s.signedAlg}:{c.iss}:{c.sub}:{c.aud}:{c.iat}:{c.exp}"
+    | _ => "ok:signatures"
+  | _, _ => "ok:unparsable"
+
+def mintModel (l : Line) (now : Int) : String :=
+  let cd : HlpCodec := { bytesOf := fun _ => nat l "t.mid" }
+  let r : Go.R Token :=
+    if str l "family" == "generate" then
+      GenC14.GenerateJWTProfileToken now cd (GenC14.NewJWTProfileAssertion now (str l "h.client") (str l "h.kid") (list l "h.aud") (mintKey l) [])
+    else
+      match GenC14.NewSignerFromPrivateKeyByte now (mintKey l) (str l "h.kid") with
+      | .error e => .error e
+      | .ok s => GenC14.SignedJWTProfileAssertion now cd (str l "h.client") (list l "h.aud") (int l "h.exp") s
+  match r with
+  | .error e => "err:" ++ mintErrClass e
+  | .ok t => mintSummary t
+
+def stepMint (l : Line) : String :=
+  let observed := if str l "h.obs" == "ok" then mintSummary (parseToken l) else str l "h.obs"
+  let m0 := mintModel l (int l "m0")
+  let m1 := mintModel l (int l "m1")
+  let agree := observed == m0 || observed == m1
+  s!"case={str l "case"} class={lineClass l} model={if agree then observed else m0} observed={observed} monitor={showMon (monitorLine l)} agree={if agree then 1 else 0}"
+
 def step (l : Line) : String :=
   if str l "kind" == "endpoint" then stepEndpoint l else
+  if str l "kind" == "mint" then stepMint l else
   let (m0, a0) := modelLine l (int l "now0")
   let (m1, _) := modelLine l (int l "now1")
   let stable := m0 == m1
-  s!"case={str l "case"} class={str l "kind"}:{obsString l} model={if stable then m0 else "unstable"} observed={obsString l} monitor={showMon (monitorLine l)} agree={if !stable || a0 then 1 else 0}"
+  s!"case={str l "case"} class={lineClass l} model={if stable then m0 else "unstable"} observed={obsString l} monitor={showMon (monitorLine l)} agree={if !stable || a0 then 1 else 0}"
 
 end Drv.C14
